@@ -63,6 +63,117 @@ def expand_accessors(form):
     return form
 
 
+CTX = None          # set by `check`: lets the matcher know which pinned helpers no longer exist
+_SUMM = None
+
+
+def summaries():
+    global _SUMM
+    if _SUMM is None:
+        import json
+        _SUMM = json.load(open(os.path.join(os.path.dirname(os.path.abspath(__file__)), 'helper_summaries.json')))
+    return _SUMM
+
+
+def gone_helpers():
+    """short names of pinned helpers (helper_summaries.json) that the current tree no longer has: inlined and deleted"""
+    if CTX is None:
+        return {}
+    g = getattr(CTX, '_gone_helpers', None)
+    if g is None:
+        g = {k: v for k, v in summaries().items() if not CTX.has(v['def'])}
+        CTX._gone_helpers = g
+    return g
+
+
+def _split_args(s):
+    out, depth, cur = [], 0, ''
+    for ch in s:
+        if ch in '([{':
+            depth += 1
+        elif ch in ')]}':
+            depth -= 1
+        if ch == ',' and depth == 0:
+            out.append(cur.strip()); cur = ''
+        else:
+            cur += ch
+    if cur.strip():
+        out.append(cur.strip())
+    return out
+
+
+def norm_phi(form):
+    """sort the alternatives of every phi{a | b} (they are sorted by rendering, which a substitution can disturb)"""
+    out, i = '', 0
+    while True:
+        j = form.find('phi{', i)
+        if j < 0:
+            return out + form[i:]
+        out += form[i:j]
+        depth, k = 0, j + 3
+        while k < len(form):
+            if form[k] in '{([':
+                depth += 1
+            elif form[k] in '})]':
+                depth -= 1
+                if depth == 0:
+                    break
+            k += 1
+        inner = form[j + 4:k]
+        alts, depth, cur, x = [], 0, '', 0
+        while x < len(inner):
+            ch = inner[x]
+            if ch in '{([':
+                depth += 1
+            elif ch in '})]':
+                depth -= 1
+            if depth == 0 and inner[x:x + 3] == ' | ':
+                alts.append(cur); cur = ''; x += 3
+                continue
+            cur += ch
+            x += 1
+        alts.append(cur)
+        out += 'phi{' + ' | '.join(sorted(norm_phi(a) for a in alts)) + '}'
+        i = k + 1
+
+
+def expand_gone(form):
+    """replace a call of a pinned helper that no longer exists by the helper's pinned return form (parameters replaced by
+    the arguments of the call): what the caller computes now that the helper has been inlined into it"""
+    import re
+    g = gone_helpers()
+    if not g:
+        return form
+    for _ in range(3):
+        changed = False
+        for short, v in g.items():
+            j = form.find(short + '(')
+            if j < 0:
+                continue
+            depth, k = 0, j + len(short)
+            while k < len(form):
+                if form[k] == '(':
+                    depth += 1
+                elif form[k] == ')':
+                    depth -= 1
+                    if depth == 0:
+                        break
+                k += 1
+            args = _split_args(form[j + len(short) + 1:k])
+            params = v['params']
+            if len(args) == len(params) - 1 and params and params[0] == 'self':
+                args = ['self'] + args      # tables written without the receiver
+            if len(args) != len(params):
+                continue
+            m = dict(zip(params, args))
+            body = re.sub(r'\b(' + '|'.join(re.escape(x) for x in params if x) + r')\b', lambda mm: m[mm.group(1)], v['ret'])
+            form = form[:j] + body + form[k + 1:]
+            changed = True
+        if not changed:
+            break
+    return form
+
+
 def _match(form, expected):
     import re
     m0 = _match0(form, expected)
@@ -70,7 +181,14 @@ def _match(form, expected):
         return m0
     ef = expand_accessors(form)
     if ef != form:
-        return _match0(ef, expected)
+        m1 = _match0(ef, expected)
+        if m1 is not None:
+            return m1
+    if gone_helpers():
+        nf = norm_phi(form)
+        for x in expected:
+            if not x.startswith('re:') and norm_phi(expand_gone(x)) == nf and expand_gone(x) != x:
+                return x
     return None
 
 
@@ -150,6 +268,9 @@ def check_call_args(ctx, rep, rid, table, skip_self=True, cd=1):
                     rep.ob(rid, fn, '%s(%s)' % (callee.split('::')[-1], form), False, '%s:%s' % (b.file, ln),
                            '%s is called with `%s`; the argument forms confirmed for this call are %s' % (callee, form, sorted(expected)))
             for form in sorted(set(expected) - matched):
+                if any(callee.endswith(k) or k.endswith('::' + callee.split('::')[-1]) and callee.split('::')[-1] == k.split('::')[-1] for k in gone_helpers()) and not got:
+                    rep.ob(rid, fn, '%s(%s)' % (callee.split('::')[-1], form), True, None, 'the helper has been inlined into its caller and deleted: its pinned return form is used where tables name it')
+                    continue
                 rep.ob(rid, fn, '%s(%s)' % (callee.split('::')[-1], form), False, None, 'the call %s(%s) expected in this function is missing' % (callee, form))
 
 
